@@ -195,3 +195,13 @@ package tchannel
 // integrity clause.
 //@ func (r *fragmentingReader) recvAndParseNextFragment(initial bool) (err error)
 //@   property C05
+
+// "time spent ... counts against the same deadline": the retry loop itself waits
+// for nothing -- no pause between attempts that ignores the caller's context.
+// (the attempt function is the caller's own code: assumed bounded by the context
+// it is given, T4)
+//@ functype RetriableFunc(ctx context.Context, rs *RequestState) (err error)
+//@   effect bounded
+//@ func (ch *Channel) RunWithRetry(runCtx context.Context, f RetriableFunc) (err error)
+//@   effect bounded
+//@   property C05
